@@ -55,10 +55,11 @@ class TunnelEndpoint(Endpoint):
         if self.tunnel_community is not None:
             tunnel_community = self.tunnel_community
             circuits = tunnel_community.find_circuits(exit_flags=[PEER_FLAG_EXIT_IPV8], hops=self.hops, state=None)
-            circuit = circuits[0] if circuits else None
-            if not circuit or circuit.state != CIRCUIT_STATE_READY:
+            # A circuit that is closing or still extending must not keep us from using a ready one
+            circuit = next((c for c in circuits if c.state == CIRCUIT_STATE_READY), None)
+            if not circuit:
                 # Recreate tunnel when needed
-                if not circuit:
+                if not circuits:
                     tunnel_community.create_circuit(self.hops, exit_flags=[PEER_FLAG_EXIT_IPV8])
                 self.send_queue.append((address, packet))
                 return
